@@ -93,6 +93,32 @@ def trieOps : Nat → St → P St
         | none => s.v
       let v := v.failIf (n != s.es.length) s!"Trie::size wrong_count op={s.nops} impl={n} stored={s.es.length}"
       trieOps fuel { s with v := v }
+    | "rfc" =>
+      -- refine(filter(q1), q2): by `refine_chain` the answer is filter(q1 ++ q2)
+      let q1 ← pf; let q2 ← pf; let ids1 ← P.nats; let r ← P.nats
+      let v := s.v.failIf (!(sameIds ids1 (specFilter s.es q1))) s!"Trie::filter wrong_ids op={s.nops} q={q1} impl={ids1} spec={specFilter s.es q1}"
+      let m := s.t.refineCursor ids1 q2
+      let v := v.diffIf (m != r) s!"Trie::refine op={s.nops} (chain) model={m} impl={r}"
+      let spec := specFilter s.es (q1 ++ q2)
+      let v := v.failIf (!(sameIds r spec)) s!"Trie::refine chain_wrong_ids op={s.nops} q1={q1} q2={q2} ids1={ids1} impl={r} spec={spec}"
+      trieOps fuel { s with v := v }
+    | "rr" =>
+      -- refine(refine(ids, q1), q2) and refine(ids, q1 ++ q2): both the members of ids compatible with the joined key (`refine_refine`)
+      let ids ← P.nats; let q1 ← pf; let q2 ← pf; let r1 ← P.nats; let r2 ← P.nats; let r12 ← P.nats
+      let v := s.v.diffIf (s.t.refineCursor ids q1 != r1) s!"Trie::refine op={s.nops} (first of two) model={s.t.refineCursor ids q1} impl={r1}"
+      let v := v.diffIf (s.t.refineCursor r1 q2 != r2) s!"Trie::refine op={s.nops} (second of two) model={s.t.refineCursor r1 q2} impl={r2}"
+      let v := v.diffIf (s.t.refineCursor ids (q1 ++ q2) != r12) s!"Trie::refine op={s.nops} (joined key) model={s.t.refineCursor ids (q1 ++ q2)} impl={r12}"
+      let spec := specRefine s.es ids (q1 ++ q2)
+      let v := v.failIf (!(sameIds r1 (specRefine s.es ids q1))) s!"Trie::refine wrong_ids op={s.nops} ids={ids} q={q1} impl={r1} spec={specRefine s.es ids q1}"
+      let v := v.failIf (!(sameIds r2 spec)) s!"Trie::refine refine_twice_wrong_ids op={s.nops} ids={ids} q1={q1} q2={q2} impl={r2} spec={spec}"
+      let v := v.failIf (!(sameIds r12 spec)) s!"Trie::refine wrong_ids op={s.nops} ids={ids} q={q1 ++ q2} impl={r12} spec={spec}"
+      trieOps fuel { s with v := v }
+    | "rsv" => trieOps fuel s          -- Trie::reserve: capacity only
+    | "cpy" => trieOps fuel s          -- the history goes on on a copy: same abstract state
+    | "gf" =>
+      let a ← P.nats; let b ← P.nats
+      let v := s.v.failIf (a != s.t.F || b != s.t.F) s!"Trie::getF wrong_factor_space op={s.nops} getF={a} getFactors={b} F={s.t.F}"
+      trieOps fuel { s with v := v }
     | _ => P.fail
 
 def trieLine : P String := do
@@ -140,6 +166,20 @@ def probeLine : P String := do
     let v := v.diffIf (outcome != "crash" && s.ub) s!"{comp} model predicts an out-of-bounds read ({kind}) that the sanitized run did not show"
     pure v.render
 
+/-- `fprobe <component> <kind> <outcome> <F> <what>` : FasterTrie given an empty key in a forked child; `crash` = the child died -/
+def fprobeLine : P String := do
+  let comp ← P.tok; let kind ← P.tok; let outcome ← P.tok
+  let F ← P.nats; let what ← P.tok; P.eof
+  let g := AITB.Gen.C20.ftEmptyKeyGuard
+  let t := FT.new F
+  let mdl : String :=
+    if what == "erase" then (match t.eraseG g 0 [] with | none => "ub" | some _ => "ok")
+    else (match t.insertG g [] with | none => "ub" | some none => "invalid_argument" | some (some _) => "ok")
+  let v : Verdict := { tag := "probe" }
+  let v := v.failIf (outcome == "crash") s!"{comp} {kind} shape={F} call={what} with an empty key (Trie stores this key) model={mdl}"
+  let v := v.diffIf (outcome != "crash" && mdl != outcome) s!"{comp} empty key: model={mdl} impl={outcome}"
+  pure v.render
+
 /-! FasterTrie -/
 structure FSt where
   t : FT
@@ -180,6 +220,22 @@ def ftrieOps : Nat → FSt → P FSt
       let v := s.v.diffIf (if s.exact then m != r else sortN m != sortN r) s!"FasterTrie::filter op={s.nops} model={m} impl={r}"
       let spec := specFilter s.es (prefixPF 0 f)
       let v := v.failIf (!(sameIds r spec)) s!"FasterTrie::filter wrong_ids op={s.nops} f={f} impl={r} spec={spec}"
+      ftrieOps fuel { s with v := v }
+    | "cpy" => ftrieOps fuel s
+    | "ine" =>
+      -- insert of an empty key: as the source handles it now (`ftEmptyKeyGuard`)
+      let out ← P.tok; let id ← P.nat
+      let mdl : String := match s.t.insertG AITB.Gen.C20.ftEmptyKeyGuard [] with
+        | none => "ub" | some none => "invalid_argument" | some (some _) => "ok"
+      let v := s.v.diffIf (mdl != out) s!"FasterTrie::insert op={s.nops} empty key model={mdl} impl={out}"
+      if out == "ok" then
+        -- the implementation stored it: it is compatible with every query from now on
+        ftrieOps fuel { s with es := specInsert s.es id [], issued := id :: s.issued, v := v, exact := false }
+      else ftrieOps fuel { s with v := v }
+    | "ere" =>
+      let _id ← P.nat; let out ← P.tok
+      let mdl : String := match s.t.eraseG AITB.Gen.C20.ftEmptyKeyGuard _id [] with | none => "ub" | some _ => "ok"
+      let v := s.v.diffIf (mdl != out) s!"FasterTrie::erase op={s.nops} empty key model={mdl} impl={out}"
       ftrieOps fuel { s with v := v }
     | "siz" =>
       let n ← P.nat
@@ -266,6 +322,36 @@ def fmapOps (faster : Bool) : Nat → MSt → P MSt
       let n ← P.nat
       let v := s.v.failIf (n != s.es.length) s!"{comp}::size wrong_count op={s.nops} impl={n} stored={s.es.length}"
       fmapOps faster fuel { s with v := v }
+    | "get" =>
+      let id ← P.nat; let x ← P.nat
+      let its := if faster then s.mf.items else s.m.items
+      let v := s.v.failIf (its[id]? != some x) s!"{comp}::operator[] wrong_item op={s.nops} id={id} impl={x} emplaced={its[id]?}"
+      fmapOps faster fuel { s with v := v }
+    | "all" =>
+      let a ← P.nats; let b ← P.nats
+      let its := if faster then s.mf.items else s.m.items
+      let v := s.v.failIf (a != its) s!"{comp}::begin_end wrong_items op={s.nops} impl={a} emplaced={its}"
+      let v := v.failIf (b != its) s!"{comp}::getContainer wrong_items op={s.nops} impl={b} emplaced={its}"
+      fmapOps faster fuel { s with v := v }
+    | "gf" =>
+      let a ← P.nats; let b ← P.nats
+      let v := s.v.failIf (a != b) s!"{comp}::getF wrong_factor_space op={s.nops} impl={a} F={b}"
+      fmapOps faster fuel { s with v := v }
+    | "rsv" => fmapOps faster fuel s
+    | "rbd" =>
+      -- FilterMap(getTrie(), items) with as many items as stored entries: must be accepted (`FMInv_copy`); the history goes on on it
+      let items ← P.nats; let out ← P.tok
+      let mdl : String := if faster then (match FMF.ofTrie s.mf.trie items with | some _ => "ok" | none => "invalid_argument")
+        else (match FM.ofTrie sizeFB s.m.trie items with | some (some _) => "ok" | some none => "invalid_argument" | none => "ub")
+      let v := s.v.diffIf (mdl != out) s!"{comp}::FilterMap(trie,items) op={s.nops} model={mdl} impl={out}"
+      let v := v.failIf (out != "ok" && items.length == s.es.length) s!"{comp}::FilterMap(trie,items) rejects_matching_sizes op={s.nops} items={items.length} stored={s.es.length} outcome={out}"
+      if out == "ok" then
+        fmapOps faster fuel { s with m := { s.m with items := items }, mf := { s.mf with items := items }, v := v }
+      else fmapOps faster fuel { s with v := v }
+    | "rbx" =>
+      let n ← P.nat; let out ← P.tok
+      let v := s.v.failIf (out != "invalid_argument" && n != s.es.length) s!"{comp}::FilterMap(trie,items) accepts_different_sizes op={s.nops} items={n} stored={s.es.length} outcome={out}"
+      fmapOps faster fuel { s with v := v }
     | _ => P.fail
 
 def fmapLine (faster : Bool) : P String := do
@@ -294,7 +380,7 @@ def imiLine : P String := do
   let ids ← P.nats; let cont ← P.nats; P.bar
   let fwd ← P.nats; let post ← P.nats; let arrow ← P.nats; let plus ← P.nats; let sub ← P.nats; let pluseq ← P.nats
   let rev ← P.nats; let revpost ← P.nats; let minus ← P.nats; let minuseq ← P.nats; let dist ← P.nats
-  let total ← P.nat; let cmpWrong ← P.nat; P.eof
+  let total ← P.nat; let cmpWrong ← P.nat; let oldpos ← P.nats; let newpos ← P.nats; P.eof
   let r : AITB.IndexMap.Rng := ⟨ids, cont⟩
   if !(ids.all (· < cont.length)) then pure "skip invalid_ids" else
   let some? (l : List Nat) : List (Option Nat) := l.map some
@@ -312,7 +398,131 @@ def imiLine : P String := do
   let v := v.failIf (some? minus != AITB.IndexMap.walkMinus r) s!"{c} minus_wrong_entries ids={ids} impl={minus}"
   let v := v.failIf (some? minuseq != AITB.IndexMap.walkMinus r) s!"{c} minuseq_wrong_entries ids={ids} impl={minuseq}"
   let v := v.failIf (total != ids.length) s!"{c} end_minus_begin_wrong impl={total} n={ids.length}"
+  -- `it--` returns the position before the step, `--it` the position after it
+  let v := v.failIf (oldpos != (List.range ids.length).map (fun k => ids.length - k)) s!"{c} postdecrement_returns_wrong_position impl={oldpos} n={ids.length}"
+  let v := v.failIf (newpos != (List.range ids.length).map (fun k => ids.length - 1 - k)) s!"{c} predecrement_returns_wrong_position impl={newpos} n={ids.length}"
   let v := v.failIf (cmpWrong != 0) s!"{c} comparisons_or_differences_wrong count={cmpWrong}"
+  pure v.render
+
+/-! `fmc trie|ftrie <F> <ins/era/erp …> | n outcome nq (f ids)*` : `FilterMap(trie, items)` over a trie that may have seen erasures,
+    `n = trie.size()` items.  Clause: if the constructor accepts, every id a filter hands out must address the item container
+    (`ofTrie_gap_counterexample`: the size test does not ensure that); if it rejects, some stored id must be outside the container. -/
+structure CSt where
+  es : Spec := []
+  t : T
+  ft : FT
+
+def fmcOps : Nat → CSt → P CSt
+  | 0, _ => P.fail
+  | fuel + 1, s => do
+    let op ← P.tok
+    match op with
+    | "|" => pure s
+    | "ins" =>
+      let q ← pf; let id ← P.nat
+      let ft' := match s.ft.insert q with | some r => r.1 | none => s.ft
+      fmcOps fuel { es := specInsert s.es id q, t := (s.t.insert q).1, ft := ft' }
+    | "era" => let id ← P.nat; fmcOps fuel { s with es := specErase s.es id, t := s.t.erase id }
+    | "erp" =>
+      let id ← P.nat; let q ← pf
+      fmcOps fuel { es := specErase s.es id, t := (s.t.erasePF true id q).getD s.t, ft := (s.ft.erase id q).getD s.ft }
+    | _ => P.fail
+
+def fmcQueries (comp : String) (es : Spec) (n : Nat) : Nat → Verdict → P Verdict
+  | 0, v => do P.eof; pure v
+  | k + 1, v => do
+    let f ← P.nats; let ids ← P.nats
+    let spec := specFilter es (prefixPF 0 f)
+    let v := v.failIf (!(sameIds ids spec)) s!"{comp}::filter wrong_ids f={f} impl={ids} spec={spec}"
+    let v := v.failIf (!(ids.all (· < n))) s!"{comp}::FilterMap(trie,items) id_outside_container f={f} ids={ids} items={n} (accepted: sizes agree, the trie has erased entries)"
+    fmcQueries comp es n k v
+
+def fmcLine : P String := do
+  let kind ← P.tok
+  let faster := kind == "ftrie"
+  let comp := if faster then "FilterMap<FasterTrie>" else "FilterMap<Trie>"
+  let F ← P.nats
+  match T.mk? F with
+  | none => P.fail
+  | some t0 =>
+  let toks ← get
+  let s ← fmcOps (toks.length + 1) { t := t0, ft := FT.new F }
+  let es := s.es
+  let n ← P.nat; let out ← P.tok; let nq ← P.nat
+  let dense := (specIds es).all (· < n)
+  let v : Verdict := { tag := if dense then "fmc" else "fmc gap" }
+  let v := v.failIf (n != es.length) s!"{comp}::size wrong_count impl={n} stored={es.length}"
+  -- the constructor as the source has it now (size test only / size test + id range: AITB.Gen.C20.ctorChecksIdRange)
+  let items := List.replicate n 0
+  let chk := AITB.Gen.C20.ctorChecksIdRange
+  let mdl : String :=
+    if faster then (match (if chk then FMF.ofTrieChecked s.ft items else FMF.ofTrie s.ft items) with | some _ => "ok" | none => "invalid_argument")
+    else (match (if chk then FM.ofTrieChecked sizeFB s.t items else FM.ofTrie sizeFB s.t items) with
+      | some (some _) => "ok" | some none => "invalid_argument" | none => "ub")
+  let v := v.diffIf (mdl != out) s!"{comp}::FilterMap(trie,items) model={mdl} impl={out} stored_ids={specIds es} items={n}"
+  let v := v.failIf (out != "ok" && dense) s!"{comp}::FilterMap(trie,items) rejects_valid_pair stored_ids={specIds es} items={n} outcome={out}"
+  let v ← fmcQueries comp es n nq v
+  pure v.render
+
+/-- `mat <a> <b> <f> | m_ab m_ba m_fa m_fb` : the library's `match` helpers (Core.cpp) on ascending keys against the specification's
+    compatibility (`matchPF_spec`, `matchF_spec`): the vocabulary in which the callers of the indexes and this check speak -/
+def matLine : P String := do
+  let a ← pf; let b ← pf; let f ← P.nats; P.bar
+  let mab ← P.bool; let mba ← P.bool; let mfa ← P.bool; let mfb ← P.bool; P.eof
+  let v : Verdict := { tag := if a.isEmpty || b.isEmpty then "mat trivial" else "mat" }
+  let v := v.diffIf (matchPF a b != mab || matchPF b a != mba) s!"Factored::match(pf,pf) model={matchPF a b},{matchPF b a} impl={mab},{mba}"
+  let v := v.diffIf (matchF f a != mfa || matchF f b != mfb) s!"Factored::match(f,pf) model={matchF f a},{matchF f b} impl={mfa},{mfb}"
+  let v := v.failIf (mab != compatB a b || mba != compatB a b) s!"Factored::match(pf,pf) not_compatibility a={a} b={b} impl={mab},{mba} compatible={compatB a b}"
+  let v := v.failIf (mfa != compatB a (prefixPF 0 f) || mfb != compatB b (prefixPF 0 f)) s!"Factored::match(f,pf) not_compatibility f={f} a={a} b={b} impl={mfa},{mfb}"
+  pure v.render
+
+/-- `mrg <a> <b> | <merged>` : the library's `merge(pf, pf)` against the model (`mergePFs`) and against what it must denote
+    (`mergePFs_lookup`: factor by factor the right operand's value if it names the factor, else the left one's) -/
+def mrgLine : P String := do
+  let a ← pf; let b ← pf; P.bar; let m ← pf; P.eof
+  let v : Verdict := { tag := if a.isEmpty || b.isEmpty then "mrg trivial" else "mrg" }
+  let v := v.diffIf (mergePFs a b != m) s!"Factored::merge model={mergePFs a b} impl={m}"
+  let bound := ((a ++ b ++ m).map (·.1)).foldl max 0 + 1
+  -- documented contract: every factor named by either operand once, with that operand's value; on a factor named by both the value is
+  -- "from one of the two inputs" (unspecified which: the model takes the right one as the code does — a `diff` at most)
+  let okAt (i : Nat) : Bool := match lookup a i, lookup b i with
+    | none, none => lookup m i == none
+    | some x, none => lookup m i == some x
+    | none, some y => lookup m i == some y
+    | some x, some y => lookup m i == some x || lookup m i == some y
+  let v := v.failIf (!((List.range bound).all okAt)) s!"Factored::merge not_join a={a} b={b} impl={m}"
+  let v := v.failIf (!((m.zip (m.drop 1)).all (fun p => decide (p.1.1 < p.2.1)))) s!"Factored::merge keys_not_ascending impl={m}"
+  pure v.render
+
+/-- `ism <kind> <ids> <cont> | visited values size` : IndexSkipMap walk against the as-written model (`skipWalkIds`); with an ascending
+    skip list the clause is the documented one (`skipWalkIds_spec`): exactly the unlisted container positions, in order -/
+def ismLine : P String := do
+  let kind ← P.tok
+  let ids ← P.nats; let cont ← P.nats; P.bar
+  let visited ← P.nats; let vals ← P.nats; let size ← P.nat; P.eof
+  let r : AITB.IndexMap.Rng := ⟨ids, cont⟩
+  let c := s!"IndexSkipMap<{kind}>"
+  let asc := (ids.zip (ids.drop 1)).all (fun p => decide (p.1 < p.2))
+  let v : Verdict := { tag := if cont.length ≤ 1 then "ism trivial" else if asc then "ism" else "ism unsorted" }
+  let m := AITB.IndexMap.skipWalkIds r
+  let v := v.diffIf (m != visited) s!"{c} walk model={m} impl={visited} ids={ids} n={cont.length}"
+  let v := v.diffIf (AITB.IndexMap.skipVisitIds r != m) s!"{c} as-written and merged models differ ids={ids} n={cont.length}"
+  let v := v.failIf (asc && visited != AITB.IndexMap.skipSpec r) s!"{c} wrong_entries ids={ids} n={cont.length} impl={visited} unlisted={AITB.IndexMap.skipSpec r}"
+  let v := v.failIf (vals.map some != visited.map (fun i => cont[i]?)) s!"{c} wrong_items visited={visited} items={vals}"
+  -- `size()` as written is the number of listed ids (see `skipSize_counterexample`); recorded, not judged
+  let v := v.diffIf (size != AITB.IndexMap.skipSizeAsWritten r) s!"{c} size model={AITB.IndexMap.skipSizeAsWritten r} impl={size}"
+  pure v.render
+
+/-- `srt <ids> <cont> | ids' values'` : `IndexMap::sort()`; clause `sortOK` (sound by `sortOK_sound`), item sequence unique by `sort_vals_unique` -/
+def srtLine : P String := do
+  let ids ← P.nats; let cont ← P.nats; P.bar
+  let ids' ← P.nats; let vals ← P.nats; P.eof
+  if !(ids.all (· < cont.length)) then pure "skip invalid_ids" else
+  let v : Verdict := { tag := if ids.length ≤ 1 then "srt trivial" else "srt" }
+  let v := v.failIf (!(AITB.IndexMap.sortOK cont ids ids')) s!"IndexMap::sort not_sorted_rearrangement ids={ids} cont={cont} impl={ids'}"
+  let v := v.failIf (vals != ids'.map (AITB.IndexMap.item cont)) s!"IndexMap::sort wrong_items ids={ids'} items={vals}"
+  let mv := (AITB.IndexMap.sortIds cont ids).map (AITB.IndexMap.item cont)
+  let v := v.diffIf (vals != mv) s!"IndexMap::sort item sequence model={mv} impl={vals}"
   pure v.render
 
 def handle (toks : List String) : String :=
@@ -322,8 +532,14 @@ def handle (toks : List String) : String :=
     | "fmt" :: rest => P.run (fmapLine false) rest
     | "fmf" :: rest => P.run (fmapLine true) rest
     | "probe" :: rest => P.run probeLine rest
+    | "fprobe" :: rest => P.run fprobeLine rest
     | "ctor" :: rest => P.run ctorLine rest
     | "imi" :: rest => P.run imiLine rest
+    | "fmc" :: rest => P.run fmcLine rest
+    | "mat" :: rest => P.run matLine rest
+    | "mrg" :: rest => P.run mrgLine rest
+    | "ism" :: rest => P.run ismLine rest
+    | "srt" :: rest => P.run srtLine rest
     | _ => none
   r.getD "bad-op"
 
